@@ -394,6 +394,31 @@ def r4_guards(r, facts):
                        (e[1] == 'Lt' and la and tgt == t_true) or (e[1] == 'Ge' and la and tgt == t_false):
                         ok = True
             arg = eg.operand(t['args'][1])
+            # the limit is applied on every path: no return between taking the inner iovecs and the truncation
+            # loop, unless that exit is guarded by a comparison with the total length of the inner buffers
+            inner = [(l2, t2) for l2, t2 in g.calls() if (t2.get('callee') or '') in ('io::traits::BufSlice::as_iovecs', 'io::traits::BufMutSlice::as_iovecs_mut')]
+            nexts = [l2 for l2, t2 in g.calls() if (t2.get('callee') or '') == 'std::iter::Iterator::next']
+            if r.require(len(inner) == 1 and nexts, 'LimitedBuf::%s/shape' % meth, 'inner iovecs / truncation loop not found', g.where()):
+                il, it = inner[0]
+                hit = g.forward_paths_hit([Loc(it['target'], 0)], g.returns(), blockers=nexts)
+                if hit is not None:
+                    guarded = False
+                    for (b, tgt) in c10.controlling_switches(g, hit[0]):
+                        de = ExprBuilder(g, multi='phi').operand(g.term(b)['discr'])
+                        if any(x[0] == 'call' and x[1] in ('io::traits::BufSlice::total_len', 'io::traits::BufMutSlice::total_spare_capacity') for x in subexprs(de)):
+                            guarded = True
+                    r.require(guarded, 'LimitedBuf::%s/limit-skipped' % meth, 'a path returns the inner iovecs without applying the limit (the buffers together may exceed it, e.g. two 3 GiB buffers under a 4 GiB limit)', g.where(hit[0]))
+                # the running remainder starts at self.limit
+                left0 = None
+                for l2, s2 in g.assigns():
+                    if not s2['lhs']['p'] and g.local_name(s2['lhs']['l']) == 'left':
+                        if left0 is None or g.dominates(l2, left0[0]):
+                            left0 = (l2, ExprBuilder(g, multi='leaf').rvalue(s2['rv']))
+                if r.require(left0 is not None, 'LimitedBuf::%s/left' % meth, 'remaining-limit counter not found', g.where()):
+                    e0 = left0[1]
+                    narrowed = [x for x in subexprs(e0) if (x[0] == 'cast' and x[1] == 'IntToInt' and x[3] in ('u32', 'u16')) or (x[0] == 'call' and x[1].endswith('try_from'))]
+                    r.require(fam.last_field(e0) == 'limit' or (any(fam.last_field(x) == 'limit' for x in subexprs(e0)) and not narrowed), 'LimitedBuf::%s/left-init' % meth,
+                              'the remaining-limit counter is not initialised with the full self.limit: %s' % (e0,), g.where(left0[0]))
             r.inst('LimitedBuf::%s: set_len(%s) guarded: %s' % (meth, arg, ok), g.where(loc))
             r.require(ok, 'LimitedBuf::%s/guard' % meth, 'an iovec is resized without `len > left` dominating it (could grow past the buffer)', g.where(loc))
             r.require(_is_left(arg), 'LimitedBuf::%s/arg' % meth, 'the iovec is not cut to the remaining limit: %s' % (arg,), g.where(loc))
